@@ -317,6 +317,8 @@ class Exec:
             return IntV(v.t, 'char')
         if ty == '()':
             return UNIT
+        if ty.startswith('{closure@') and ty.endswith('}'):
+            return Agg('closure', ty, None, [])      # a capture-less (zero-sized) closure is never assigned in MIR
         if ty == '!':
             return Opaque('!', hint)
         if ty.startswith('(') and ty.endswith(')'):
@@ -1318,9 +1320,9 @@ class Exec:
         for name in prog.names():
             if not name.endswith('>::' + meth) and not name.endswith('::' + meth):
                 continue
-            mm = re.search(r'<impl at ([^>]*?\.rs):(\d+):\d+: \d+:\d+>::' + re.escape(meth) + r'$', name)
+            mm = re.search(r'<impl at ([^>]*?\.rs):(\d+):(\d+): (\d+):(\d+)>::' + re.escape(meth) + r'$', name)
             if mm:
-                hdr = self.impl_header(mm.group(1), int(mm.group(2)))
+                hdr = self.impl_header(mm.group(1), int(mm.group(2)), (int(mm.group(3)), int(mm.group(5))) if mm.group(2) == mm.group(4) else None)
                 if hdr is None:
                     continue
                 h_trait, h_self, gens = hdr
@@ -1365,8 +1367,8 @@ class Exec:
             raise NotEncoded(f'ambiguous callee {callee}: {[f.name for f, _ in out][:4]}')
         return None
 
-    def impl_header(self, file, line):
-        key = ('impl', file, line)
+    def impl_header(self, file, line, col=None):
+        key = ('impl', file, line, col)
         if key in self.memo:
             return self.memo[key]
         r = None
@@ -1375,6 +1377,14 @@ class Exec:
             src = open(f'{root}/{file}').read().split('\n')
             txt = ' '.join(src[line - 1:line + 8]).strip()
             m = re.match(r'^(?:unsafe )?impl\b', txt)
+            if not m and col is not None and 'derive' in src[line - 1]:
+                # a derive-generated impl: the span covers the trait name inside #[derive(..)]; Self is the item that follows
+                trait = src[line - 1][col[0] - 1:col[1] - 1].strip()
+                for l2 in src[line:line + 12]:
+                    mm = re.match(r'^\s*(?:pub(?:\([^)]*\))?\s+)?(?:struct|enum)\s+(\w+)', l2)
+                    if mm:
+                        r = (trait, mm.group(1), [])
+                        break
             if m:
                 rest = txt[m.end():].lstrip()
                 gens = []
